@@ -1267,6 +1267,18 @@ def _do_edit(sim, cl, i, op, g):
         h.remove_node(nodes[r.randrange(len(nodes))])
         nodes = list(h.nodes)
         edges = list(h.edges)
+    if how == "rewire" and len(nodes) > 2:
+        # another molecule on the same atoms: one bond taken away and/or one bond
+        # drawn between two atoms that had none (the node set stays what it was)
+        d = dict(h.edges[edges[r.randrange(len(edges))]]) if edges else {}
+        if edges and r.random() < 0.7:
+            u, v = edges[r.randrange(len(edges))]
+            h.remove_edge(u, v)
+        non = [(a, b) for ai, a in enumerate(nodes) for b in nodes[ai + 1 :] if not h.has_edge(a, b)]
+        if non and r.random() < 0.8:
+            a, b = non[r.randrange(len(non))]
+            h.add_edge(a, b, **d)
+        edges = list(h.edges)
     if how in ("chg", "all"):
         for n in nodes:
             if r.random() < 0.5:
